@@ -15,6 +15,7 @@ import (
 	_ "verifharness/fam/indent"
 	_ "verifharness/fam/numbers"
 	_ "verifharness/fam/ranges"
+	_ "verifharness/fam/schema"
 	_ "verifharness/fam/text"
 )
 
